@@ -16,14 +16,14 @@ Arguments Z.max : simpl never.
 Arguments Z.min : simpl never.
 
 Lemma overlay_body_pack_ok t b p c r f :
-  GoodFx t -> s_fixed (m_sizing t) = true -> Good b -> s_box (m_sizing b) = true ->
+  GoodFx t -> s_fixed (m_sizing t) = true -> (exists nb, GoodN nb b) -> s_box (m_sizing b) = true ->
   ov_wt p = WPack -> 1 <= c -> 1 <= r ->
   match overlay_body t b p c r f with
   | Ok d => cc d = c /\ cr d = r /\ rect d = true /\ inside d
   | Err e => soft e
   end.
 Proof.
-  intros GX Hfx Gb Hb EW Hc Hr. unfold overlay_body, overlay_cpf. rewrite EW.
+  intros GX Hfx [nb Gb] Hb EW Hc Hr. unfold overlay_body, overlay_cpf. rewrite EW.
   pose proof (gx_pack t GX Hfx f) as P. pose proof (gx_render t GX Hfx f) as RT.
   destruct (m_pack t SFixed f) as [[w h]|e] eqn:EP; cbn [bind fst snd]; [|exact P].
   destruct P as [Hw Hh]. replace (h =? 0) with false by lia. cbn [bind].
@@ -84,7 +84,7 @@ Qed.
 
 (* the Overlay as a box widget, and as a fixed widget (pack(()) = top widget + margins) *)
 Lemma overlay_pack_good t b p :
-  GoodFx t -> s_fixed (m_sizing t) = true -> Good b -> s_box (m_sizing b) = true -> ov_wt p = WPack ->
+  GoodFx t -> s_fixed (m_sizing t) = true -> (exists nb, GoodN nb b) -> s_box (m_sizing b) = true -> ov_wt p = WPack ->
   0 <= ov_left p -> 0 <= ov_right p -> 0 <= ov_top p -> 0 <= ov_bottom p ->
   Good (overlay_sem t b p) /\ GoodFx (overlay_sem t b p).
 Proof.
